@@ -2,6 +2,7 @@ import LyModel.Ctx.LemmasCount
 import LyModel.Ctx.LemmasHash
 import LyModel.Ctx.LemmasRevert
 import LyModel.Ctx.Yl
+import LyModel.Ctx.LemmasYl
 import LyModel.Ctx.Examples
 /-!
 # C19 — change counter, module-set hash, and the context rebuilt from its yang-library data
@@ -318,6 +319,44 @@ theorem counter_sees_pending_feature_change (c : Cfg) (hc : c.countsImplement = 
        (run ((run (ctx0 [A, Top] true c) (.parse Top none)).2) (.setImpl (bs "aaa", []) none)).2.changeCount ≠
         ((run (ctx0 [A, Top] true c) (.parse Top none)).2).changeCount) := forall_cfg (by decide +kernel)
   exact h c hc
+
+/-- where a successful call ends: the state after the forward part, possibly with the unres sets erased -/
+private theorem run_ok {s : Ctx} {op : Op} (h : (run s op).1.isOk = true) :
+    (run s op).2 = (forward op s).2 ∨ (run s op).2 = erase (forward op s).2 := by
+  unfold run at h ⊢
+  split at h
+  · simp [Except.isOk, Except.toBool] at h
+  · next hx =>
+    simp only [hx]
+    split at h
+    · next s1 hfw =>
+      simp only [hfw]
+      cases op <;> dsimp only <;> (try split) <;> simp
+    · simp [Except.isOk, Except.toBool] at h
+      cases op <;> simp at h
+
+/-- **F133, after the repair, in general.**  With `change_count++` in `lys_implement` and for a feature change of an
+    implemented module, EVERY successful call — `lys_parse`, `ly_ctx_load_module`, `lys_set_implemented`, `ly_ctx_compile`,
+    `ly_ctx_set_options`, in any context, explicit compilation or not, pending batch or not — after which the yang-library
+    data of the context is different has incremented the counter … -/
+theorem counter_counts_every_change (s : Ctx) (op : Op) (hcfg : s.cfg.countsImplement = true)
+    (hok : (run s op).1.isOk = true) (hne : ylGen (run s op).2 ≠ ylGen s) : s.ticks < (run s op).2.ticks := by
+  have hf : YT s.cfg (ylGen s) s.ticks (forward op s).2 := presYT_forward op s ⟨rfl, Nat.le_refl _, fun _ _ => rfl⟩
+  have key : YT s.cfg (ylGen s) s.ticks (run s op).2 := by
+    rcases run_ok hok with h | h
+    · rw [h]; exact hf
+    · rw [h]; exact hf.keep rfl rfl rfl
+  have h1 := key.mono
+  have h2 := key.same hcfg
+  by_cases h3 : (run s op).2.ticks = s.ticks
+  · exact absurd (h2 h3) hne
+  · omega
+
+/-- … so (fewer than 2^16 increments in one call) `ly_ctx_get_change_count` returns a different value -/
+theorem change_count_differs_after_change (s : Ctx) (op : Op) (hcfg : s.cfg.countsImplement = true)
+    (hok : (run s op).1.isOk = true) (hne : ylGen (run s op).2 ≠ ylGen s) (hk : (run s op).2.ticks - s.ticks < 2 ^ 16) :
+    (run s op).2.changeCount ≠ s.changeCount :=
+  change_count_differs s op (counter_counts_every_change s op hcfg hok hne) hk
 
 /-! ## rebuilt from the yang-library data -/
 
